@@ -578,7 +578,19 @@ def cases(rng, ctx):
                     out.append({'kind': 'pair', 'a': a, 'b': reroute(b, via), 'tz': None})
                 elif r < 0.6:
                     out.append({'kind': 'pair', 'a': reroute(a, via), 'b': reroute(b), 'tz': None})
-    base = [c for c in out if c.get('tz') is None and not any('via' in c[k] for k in ('a', 'b'))]
+    # (2d) texts WRITTEN in the formula as quoted literals (a backslash, a quote of the other kind, blanks are characters like any
+    # other) against the same and neighbouring texts arriving as variables
+    T = ['C:\\temp', 'C:temp', 'a\\z', 'az', 'ab', '50\\%', '50%', "it's", 'say "hi"', ' a', 'a ', '', 'A', 'a', '10', '9']
+    for a in T:
+        for b in T:
+            r = rng.random()
+            if r < 0.4:
+                out.append({'kind': 'pair', 'a': dict(V(a), lit=True), 'b': V(b), 'tz': None})
+            elif r < 0.7:
+                out.append({'kind': 'pair', 'a': V(a), 'b': dict(V(b), lit=True), 'tz': None})
+            else:
+                out.append({'kind': 'pair', 'a': dict(V(a), lit=True), 'b': dict(V(b), lit=True), 'tz': None})
+    base = [c for c in out if c.get('tz') is None and not any('via' in c[k] or 'lit' in c[k] for k in ('a', 'b'))]
     for c in rng.sample(base, min(len(base), (3000 if thorough else 300) * scale)):
         c2 = dict(c)
         keys = ['a', 'b'] + (['c'] if c['kind'] == 'triple' else [])
@@ -672,6 +684,8 @@ def ev(op, a, b, tz, ka=None, kb=None):
         p = parser()
         if 'e' in a:
             ta = '(' + a['e'] + ')'
+        elif a.get('lit'):
+            ta = text_literal(a['v'])
         elif a.get('via'):
             ta = 'A1' if a['via'] == 'cell' else 'GX()'
             _route[ta[:2]] = var_value(a)
@@ -680,6 +694,8 @@ def ev(op, a, b, tz, ka=None, kb=None):
             p.set_variable('x', var_value(a))
         if 'e' in b:
             tb = '(' + b['e'] + ')'
+        elif b.get('lit'):
+            tb = text_literal(b['v'])
         elif b.get('via'):
             tb = 'B1' if b['via'] == 'cell' else 'GY()'
             _route[tb[:2]] = var_value(b)
@@ -713,9 +729,18 @@ def operand_value(o):
     return v
 
 
+def text_literal(v):
+    """the text as a quoted literal (delimited by the quote character it does not contain)"""
+    q = '"' if '"' not in v else "'"
+    assert q not in v
+    return q + v + q
+
+
 def show(o):
     if 'e' in o:
         return '`%s`' % o['e']
+    if o.get('lit'):
+        return 'the literal %s' % text_literal(o['v'])
     if o.get('via'):
         return '%r (%s)' % (var_value(o), 'answered by the cell listener' if o['via'] == 'cell' else 'returned by a host function')
     return repr(var_value(o))
